@@ -11,7 +11,7 @@ use jbonsai::Engine;
 pub fn run(ctx: &mut Ctx) {
     let env = Env::new(ctx);
     let bundled = env.load_bundled();
-    let n = ctx.n(96, 8000);
+    let n = ctx.n(300, 8000);
     ctx.run_cases("gain", n, false, |ctx, rng, idx| {
         let (base, descr): (Engine, String) = if idx % 3 == 0 {
             (bundled.clone(), "bundled".into())
